@@ -15,15 +15,18 @@ import (
 //     re-queued when Done is called.
 //   - AddRateLimited: counts a requeue and makes the key ready again (back-off
 //     delays are not modelled; the harness decides when the next step runs).
-//   - AddAfter(d > 0): arms the key. Furiko computes d against the wall clock,
-//     so only "armed" is modelled: every simulated clock advance releases all
-//     armed keys (see DESIGN.md 3.1).
+//   - AddAfter(d > 0): furiko computes d = time.Until(target), i.e. against the
+//     wall clock. The simulated epoch lies in the wall clock's future, so d is
+//     never clamped by furiko's 1 s floor and target = wallclock.Now() + d
+//     recovers the intended deadline on the simulated time line exactly (up to
+//     the microseconds between the two wall-clock reads). The key becomes ready
+//     at the first clock advance that reaches its earliest deadline.
 type Queue struct {
 	Name       string
 	ready      []string
 	dirty      map[string]bool
 	processing map[string]bool
-	armed      map[string]bool
+	armed      map[string][]time.Time // key -> deadlines on the simulated time line
 	requeues   map[string]int
 	shutdown   bool
 
@@ -34,7 +37,7 @@ type Queue struct {
 var _ workqueue.RateLimitingInterface = (*Queue)(nil)
 
 func NewQueue(name string) *Queue {
-	return &Queue{Name: name, dirty: map[string]bool{}, processing: map[string]bool{}, armed: map[string]bool{}, requeues: map[string]int{}}
+	return &Queue{Name: name, dirty: map[string]bool{}, processing: map[string]bool{}, armed: map[string][]time.Time{}, requeues: map[string]int{}}
 }
 
 func (q *Queue) Add(item interface{}) {
@@ -83,7 +86,8 @@ func (q *Queue) AddAfter(item interface{}, d time.Duration) {
 		q.Add(item)
 		return
 	}
-	q.armed[item.(string)] = true
+	k := item.(string)
+	q.armed[k] = append(q.armed[k], time.Now().Add(d))
 }
 
 func (q *Queue) AddRateLimited(item interface{}) {
@@ -95,8 +99,14 @@ func (q *Queue) AddRateLimited(item interface{}) {
 func (q *Queue) Forget(item interface{})          { delete(q.requeues, item.(string)) }
 func (q *Queue) NumRequeues(item interface{}) int { return q.requeues[item.(string)] }
 
-// ReleaseArmed moves every armed key to ready (called on clock advance).
-func (q *Queue) ReleaseArmed() int {
+// releaseSlack absorbs the wall-clock time that passes between furiko's
+// time.Until and AddAfter's own clock read.
+const releaseSlack = 20 * time.Millisecond
+
+// ReleaseArmed makes ready every key with a deadline at or before now (called
+// on clock advance). A key released a few milliseconds early is harmless: a
+// correct reconciler re-checks its condition and re-arms.
+func (q *Queue) ReleaseArmed(now time.Time) int {
 	n := 0
 	keys := make([]string, 0, len(q.armed))
 	for k := range q.armed {
@@ -104,15 +114,30 @@ func (q *Queue) ReleaseArmed() int {
 	}
 	sortStrings(keys)
 	for _, k := range keys {
-		delete(q.armed, k)
-		q.Add(k)
-		n++
+		var rest []time.Time
+		fire := false
+		for _, d := range q.armed[k] {
+			if !d.After(now.Add(releaseSlack)) {
+				fire = true
+			} else {
+				rest = append(rest, d)
+			}
+		}
+		if len(rest) == 0 {
+			delete(q.armed, k)
+		} else {
+			q.armed[k] = rest
+		}
+		if fire {
+			q.Add(k)
+			n++
+		}
 	}
 	return n
 }
 
 // Armed reports whether key has a deferred re-sync pending.
-func (q *Queue) Armed(key string) bool { return q.armed[key] }
+func (q *Queue) Armed(key string) bool { return len(q.armed[key]) > 0 }
 
 // Keys returns the ready keys (copy).
 func (q *Queue) Keys() []string { return append([]string(nil), q.ready...) }
